@@ -260,9 +260,19 @@ JOBS['C09'] = Job('C09', mc='MC_Checksum', tag='CKS', drive='cks-run', trace='Tr
                   invariants=['SplitIndependence', 'KnownAnswers', 'Emit'],
                   consts_quick={'Alphabet': '{1, 255}', 'MaxLen': 8}, consts_thorough={'Alphabet': '{0, 1, 255}', 'MaxLen': 9},
                   extra=cks_extra,
+                  design_mc=[('ChecksumWide',
+                              {'quick': [{'B': 2, 'W': 8, 'MaxLen': 13, 'R0Kind': '"edges"', 'Alphabet': '{0, 3}'},
+                                         {'B': 2, 'W': 4, 'MaxLen': 7, 'R0Kind': '"edges"', 'Alphabet': '{0, 1, 2, 3}'}],
+                               'thorough': [{'B': 2, 'W': 8, 'MaxLen': 17, 'R0Kind': '"edges"', 'Alphabet': '{0, 3}'},
+                                            {'B': 2, 'W': 8, 'MaxLen': 9, 'R0Kind': '"edges"', 'Alphabet': '{0, 1, 2, 3}'},
+                                            {'B': 2, 'W': 4, 'MaxLen': 5, 'R0Kind': '"all"', 'Alphabet': '{0, 1, 2, 3}'},
+                                            {'B': 2, 'W': 4, 'MaxLen': 9, 'R0Kind': '"edges"', 'Alphabet': '{0, 1, 2, 3}'},
+                                            {'B': 3, 'W': 8, 'MaxLen': 11, 'R0Kind': '"edges"', 'Alphabet': '{0, 1, 7}'},
+                                            {'B': 3, 'W': 4, 'MaxLen': 7, 'R0Kind': '"edges"', 'Alphabet': '{0, 1, 2, 3, 4, 5, 6, 7}'}]},
+                              ['Refines', 'NoTruncation', 'ZeroOnlyForZero', 'Consumes', 'ResultIsRfc1071'])],
                   describe='one case = one chunking of a byte string into add_2/4/8/16bytes / add_slice calls (the folded sum of all three register widths is '
                            'validated after every call), a saturated wide register, or one header+payload+address set run through every checksum function of a protocol',
-                  assumptions=['TLC explores the 16 bit machine; the 32/64 bit registers of the implementation are bound per step on directed (saturating) and seeded inputs, not exhausted',
+                  assumptions=['TLC explores the 16 bit machine and, as a refinement of it (ChecksumWide), the wide-register algorithm of checksum.rs at scaled-down widths (2/3 bit bytes, 4 and 8 byte registers, all start registers of interest); the real 32/64 bit registers are bound per step on directed (saturating) and seeded inputs, not exhausted',
                                'little endian host (the pre-loaded register test assumes it)',
                                'UDP over IPv6 jumbograms (payload > 65527) are not generated'])
 
